@@ -89,6 +89,25 @@ def replay_case(c):
                     if not close(got, want, 0):
                         bad.append(("C02.capture-matrix" if name == "A" else "C02.mixture", dict(q=name + " after own-domain system", **where0),
                                     np.asarray(want).tolist(), np.asarray(got).tolist()))
+        # filter uncertainty given as SAMPLES of the filters (3-D, documented form): the system's capture matrix is still
+        # that of the registered filters; the capture variance is the variance of the sampled captures (here: the
+        # filters scaled by 1, 2, 3, so the variance is A^2 * var(1, 2, 3) = A^2 * 2/3)
+        for when in ("constructor", "after-system"):
+            samples = np.stack([F * m for m in (1.0, 2.0, 3.0)])
+            if when == "constructor":
+                eu = dreye.ReceptorEstimator(F.copy(), domain=dom, filters_uncertainty=samples, **kw)
+                eu.register_system(S.copy(), lb=np.zeros(S.shape[0]), ub=np.full(S.shape[0], 4.0))
+            else:
+                eu = dreye.ReceptorEstimator(F.copy(), domain=dom, **kw)
+                eu.register_system(S.copy(), lb=np.zeros(S.shape[0]), ub=np.full(S.shape[0], 4.0))
+                eu.register_uncertainty(samples)
+            wu = dict(uncertainty="3-D samples, " + when, **where0)
+            if not close(eu.A, A, 0):
+                bad.append(("C02.capture-matrix", dict(q="A", **wu), A.tolist(), np.asarray(eu.A).tolist()))
+            if not close(eu.system_capture(X), Q) or not close(eu.system_relative_capture(X), R):
+                bad.append(("C02.system-capture", dict(q="system_capture", **wu), Q.tolist(), np.asarray(eu.system_capture(X)).tolist()))
+            if isinstance(eu.Epsilon, str) or not close(eu.Epsilon, A ** 2 * (2.0 / 3.0), 1e-12):
+                bad.append(("C02.capture-variance", wu, (A ** 2 * (2.0 / 3.0)).tolist(), repr(eu.Epsilon)[:200]))
         # adaptation to a background: spectrum and intensity vector.  The SAME estimator that has already answered
         # the queries above is re-adapted (anything cached by a query must not survive the adaptation), and a fresh
         # one is used as well.
